@@ -48,7 +48,9 @@ static int w_nops;
 static unsigned mc_selected;          /* property bit(s) whose oracle raises a violation */
 static int mc_checking;               /* oracles active (off while replaying a prefix) */
 static int mc_terminal;               /* the op legitimately ended the process (documented abort) */
-static int mc_branch_dead;            /* an oracle of another property failed: do not extend */
+static int mc_branch_dead;            /* an oracle failed in the current w_apply / w_audit call: the world's own control flow stops evaluating (guards);
+                                       * a failure of ANOTHER property's oracle never prunes the search - the history is extended as if nothing had been seen,
+                                       * so a change that breaks two properties is still reported by the check of the second one */
 static int mc_viol_now;               /* a selected oracle failed in the current transition */
 static char mc_viol_msg[1024];
 static unsigned long mc_other_fail;
@@ -278,11 +280,12 @@ static int mc_do_replay(const char *hist)
         mc_terminal = 0; mc_viol_now = 0; mc_branch_dead = 0;
         if (!w_enabled(h[i])) { printf("step %d: %s -- not enabled in the model (history diverged)\n", i, t); return 4; }
         w_apply(h[i]);
+        if (mc_branch_dead && !mc_viol_now) mc_branch_dead = 0;          /* another property's oracle: not this check's business, go on (as the search does) */
         if (!mc_terminal && !mc_viol_now) w_audit();
         mc_kbn = 0; if (!mc_terminal) w_canon(); mc_kb[mc_kbn] = 0;
         printf("step %d: %s -> %s key=%s\n", i, t, mc_terminal ? "process ends (documented abort)" : "ok", mc_kb);
         if (mc_viol_now) { printf("VIOLATED at step %d: %s\n", i, mc_viol_msg); rc = 1; break; }
-        if (mc_branch_dead) { printf("other-property oracle failed at step %d\n", i); if (!rc) rc = 3; break; }
+        if (mc_branch_dead) printf("(an oracle of another property failed at step %d)\n", i);
         if (mc_terminal) break;
     }
     fflush(stdout);
@@ -356,6 +359,7 @@ int main(int argc, char **argv)
             mc_progress_set(hist, n, 1, w_ops[o]);
             mc_checking = 1; mc_terminal = 0; mc_viol_now = 0; mc_branch_dead = 0;
             w_apply(w_ops[o]);
+            if (mc_branch_dead && !mc_viol_now) mc_branch_dead = 0;      /* another property's oracle failed: counted (mc_other_fail), never a reason to prune */
             transitions++;
             if (mc_terminal) terminal_count++;
 #ifndef W_AUDIT_NEW_STATES_ONLY
@@ -383,7 +387,8 @@ int main(int argc, char **argv)
                 strcpy(v->msg, mc_viol_msg);
                 continue;
             }
-            if (mc_terminal || mc_branch_dead) continue;
+            if (mc_terminal) continue;
+            mc_branch_dead = 0;
             mc_kbn = 0; w_canon();
             {
                 int nt = w_nontrivial();
